@@ -229,7 +229,7 @@ func runC11(o *opts) (*summary, error) {
 		for i := 0; i < nO; i++ {
 			for attempt := 0; attempt < 4; attempt++ {
 				jm := startJitterMonitor()
-				recs := overlappedDiscovery(rng, lt, fixed, T, tick, 0.2+0.15*float64(i%4))
+				recs := overlappedDiscovery(rng, lt, fixed, T, tick, 0.2+0.15*float64(i%4), i%2 == 1)
 				jm.stop()
 				if jm.max() <= int64(tick/time.Microsecond)*15/100 {
 					for j, r := range recs {
@@ -306,7 +306,9 @@ func runC11(o *opts) (*summary, error) {
 
 // overlappedDiscovery: clients A and B share one fixed bind port; B starts `lag` x T after A and therefore queues for
 // the port until A's window is over; the farm answers every request 0.5 T after it arrived
-func overlappedDiscovery(rng *rand.Rand, lt *layoutTables, fixed int, T int, tick time.Duration, lag float64) []M {
+// (directedFirst: the first call is not a discovery but a broadcast-to operation nobody answers - it holds the port for
+// a full timeout while the discovery queues behind it)
+func overlappedDiscovery(rng *rand.Rand, lt *layoutTables, fixed int, T int, tick time.Duration, lag float64, directedFirst bool) []M {
 	bc := listenUDP()
 	defer bc.Close()
 	timeout := time.Duration(T) * tick
@@ -314,9 +316,12 @@ func overlappedDiscovery(rng *rand.Rand, lt *layoutTables, fixed int, T int, tic
 	go func() {
 		buf := make([]byte, 2048)
 		for n := 0; ; n++ {
-			_, src, err := bc.ReadFromUDP(buf)
+			k, src, err := bc.ReadFromUDP(buf)
 			if err != nil {
 				return
+			}
+			if k < 2 || buf[1] != 0x94 {
+				continue // only discovery is answered
 			}
 			b := discoveryDatagram(rng, lt, "valid2", nil)
 			replies <- b
@@ -345,14 +350,23 @@ func overlappedDiscovery(rng *rand.Rand, lt *layoutTables, fixed int, T int, tic
 		}
 	}
 	ca, cb := make(chan M, 1), make(chan M, 1)
-	go run(ua, ca)
+	if directedFirst {
+		go func() {
+			guard(func() { ua.GetCards(201020304) })
+			ca <- M{"t": "skip"}
+		}()
+	} else {
+		go run(ua, ca)
+	}
 	time.Sleep(time.Duration(float64(timeout) * lag))
 	go run(ub, cb)
 	ra, rb := <-ca, <-cb
 	var ba, bb []byte
-	select {
-	case ba = <-replies:
-	default:
+	if !directedFirst {
+		select {
+		case ba = <-replies:
+		default:
+		}
 	}
 	select {
 	case bb = <-replies:
@@ -367,6 +381,9 @@ func overlappedDiscovery(rng *rand.Rand, lt *layoutTables, fixed int, T int, tic
 			"ret": ret, "render": M{"string": "ok", "json": "ok"}, "cfg": projCfgRouted(cfg), "classes": []string{"overlap-" + who}, "rig": "L", "asked": b != nil}
 	}
 	time.Sleep(timeout / 2) // let the port settle before the next scenario
+	if directedFirst {
+		return []M{mkrec(rb, bb, "behind-directed")}
+	}
 	return []M{mkrec(ra, ba, "first"), mkrec(rb, bb, "second")}
 }
 
